@@ -117,12 +117,30 @@ def gen_cases(ctx, n):
     combos = [c for c in combos if c[0] in SUPPORTED]
     for m, w, s in combos:
         cases.append(mu.gen_case(rng, measure=m, window=w, subpix=s, max_nd=40))
+    # images smaller than the window (no cost is computable; census / zncc raise on some of them)
+    for m in SUPPORTED:
+        for _ in range(3 if ctx.tier == "quick" else 12):
+            w = rng.choice([3, 5]) if m == "census" else rng.choice([3, 5, 7])
+            c = mu.gen_case(rng, measure=m, window=w, max_nd=12)
+            if rng.random() < 0.5:
+                rows, cols = rng.randrange(1, w), rng.randrange(w - 2, w + 3)
+            else:
+                rows, cols = rng.randrange(w - 2, w + 3), rng.randrange(1, w + 1)
+            rows, cols = max(rows, 1), max(cols, 1)
+            small = mu.gen_case(rng, measure=m, window=w, subpix=c["subpix"], max_nd=12)
+            small.update(rows=rows, cols=cols, grids=None, mask_l=None, mask_r=None, bands=None, band=None,
+                         left=[mu.gen_image(rng, rows, cols, 50, "rand")],
+                         right=[mu.gen_image(rng, rows, cols, 50, "rand")])
+            small["disp"] = [max(small["disp"][0], -3), min(max(small["disp"][1], -3), 3)]
+            if small["disp"][0] > small["disp"][1]:
+                small["disp"] = [small["disp"][1], small["disp"][1]]
+            cases.append(small)
     while len(cases) < n:
         cases.append(mu.gen_case(rng, measure=rng.choice(SUPPORTED), max_nd=40))
     return cases
 
 
-SUPPORTED = ["sad", "ssd"]
+SUPPORTED = list(mu.MEASURES)
 
 
 def run(ctx):
@@ -141,7 +159,8 @@ def run_chunk(ctx, model, cases):
     wires = [wire(c) for c in cases]
     mres = model.batch([(1, w) for w in wires])
     sres = model.batch([(2, w) for w in wires])
-    for case, mr, sr in zip(cases, mres, sres):
+    rres = model.batch([(3, [mu.MCODE[c["measure"]], c["rows"], c["cols"], c["window"], c["subpix"]]) for c in cases])
+    for case, mr, sr, rr in zip(cases, mres, sres, rres):
         m = case["measure"]
         ctx.count("volumes_" + m)
         ctx.count("window_%d" % case["window"])
@@ -150,6 +169,8 @@ def run_chunk(ctx, model, cases):
         ctx.count("bands_%d" % (1 if case["bands"] is None else len(case["bands"])))
         ctx.count("masks_%d%d" % (case["mask_l"] is not None, case["mask_r"] is not None))
         cv, exc = mu.run_impl(case)
+        if (exc is not None) != bool(rr):
+            ctx.mismatch("raises", describe(case), None if exc is None else type(exc).__name__, rr)
         if exc is not None:
             ctx.case(None)
             ctx.count("impl_raises_" + type(exc).__name__)
